@@ -447,11 +447,11 @@ func init() {
 	Register(&Prop{
 		ID:    "C13",
 		Title: "Concurrent queries are free of data races, crashes and cross-talk",
-		Rule: "a case is a batch executed in a child process built with the race detector (halt_on_error): 2-8 goroutines, each with 1-4 queries from the 33 wide " +
-			"constructs (or path selectors), released together by a barrier, each list repeated 1-3 times, GOMAXPROCS in {1,2,4,16}; scenarios: separate " +
+		Rule: "a case is a batch executed in a child process built with the race detector (halt_on_error): 2-8 goroutines, each with 1-4 queries from the 47 wide " +
+			"constructs (or path selectors; a third of the queries built with PostgresEscapingDialect / IdiomaticArrays, and now and then a text the rewriters reject next to them), released together by a barrier, each list repeated 1-3 times, GOMAXPROCS in {1,2,4,16}; scenarios: separate " +
 			"documents with selector texts never seen before in the process (column names carry a per-batch nonce), separate documents with warm " +
 			"selectors, one shared document read by all goroutines (fresh or warm names), internal parallelism (PARALLEL / HASH joins, ASYNC and " +
-			"SPINASYNC calls) inside concurrent queries, concurrent ExecReader calls, and all goroutines building and running the same query texts (WITH + UNION, CTEs, joins, subqueries) at once. Oracle: no race report, no fatal error, no confirmed hang; every " +
+			"SPINASYNC calls) inside concurrent queries, concurrent ExecReader calls, all goroutines building and running the same query texts (WITH + UNION, CTEs, joins, subqueries) at once, and function-side-effects: ASYNC / SPINASYNC calls in top-level, derived-table, CTE, scalar-subquery, inner-array and join-operand positions that write one unsynchronised cell per invocation, read by the caller right after Exec (an unset cell is a mismatch with the solo run, and a data race in this build). Oracle: no race report, no fatal error, no confirmed hang; every " +
 			"result equals the result of the same query run alone afterwards on a private copy (multiset where order is open); a shared document is " +
 			"unchanged. Non-trivial: every batch (>=2 goroutines overlap by construction of the barrier).",
 		Assumptions: []string{
